@@ -92,3 +92,75 @@ Example two_cycle_survives : survivors [(0, [1]); (1, [0]); (2, [0])] [] = [0; 1
 Proof. reflexivity. Qed.
 Example chain_is_reclaimed : survivors [(0, [1]); (1, [2]); (2, [])] [] = [].
 Proof. reflexivity. Qed.
+
+(* ---- complete characterisation of what survives ---- *)
+Lemma filter_same_or_shorter {A} (p : A -> bool) (l : list A) : filter p l = l \/ length (filter p l) < length l.
+Proof.
+induction l as [|x l IH]; [left; reflexivity|]. cbn [filter].
+assert (Hle : length (filter p l) <= length l).
+{ clear IH. induction l as [|y l IHl]; cbn [filter length]; [lia|]. destruct (p y); cbn [length]; lia. }
+destruct (p x) eqn:Hp.
+- destruct IH as [IH|IH]; [left; rewrite IH; reflexivity|right; cbn [length]; lia].
+- right. cbn [length]. lia.
+Qed.
+
+Lemma reclaim_fixed fuel : forall g roots live, sweep g roots live = live -> reclaim fuel g roots live = live.
+Proof.
+induction fuel as [|f IH]; intros g roots live Hs; cbn [reclaim]; [reflexivity|].
+rewrite Hs. apply IH. exact Hs.
+Qed.
+
+(* length-of-live many sweeps reach the fixed point *)
+Lemma reclaim_reaches_fixpoint fuel : forall g roots live, length live <= fuel ->
+  sweep g roots (reclaim fuel g roots live) = reclaim fuel g roots live.
+Proof.
+induction fuel as [|f IH]; intros g roots live Hlen; cbn [reclaim].
+- destruct live; [reflexivity|cbn [length] in Hlen; lia].
+- destruct (filter_same_or_shorter (referenced g roots live) live) as [Hs|Hs].
+  + fold (sweep g roots live) in Hs. rewrite Hs. rewrite (reclaim_fixed f g roots live Hs). exact Hs.
+  + fold (sweep g roots live) in Hs. apply IH. lia.
+Qed.
+
+Lemma existsb_In_succs g live v : existsb (fun u => mem v (succs g u)) live = true <-> exists u, In u live /\ In v (succs g u).
+Proof.
+rewrite existsb_exists. split; intros [u [Hu Hv]]; exists u; split; try assumption; apply mem_In; assumption.
+Qed.
+
+(* THE characterisation: a node survives reference counting exactly when it belongs to a SUPPORTED set of nodes - a set in which every
+   member is referenced from outside (a root) or by another member.  Such sets are: what is reachable from the roots, and cycles with
+   whatever hangs from them.  Nothing else survives, and everything of that kind does. *)
+Definition supported (g : graph) (roots S : list nat) : Prop :=
+  forall v, In v S -> In v (map fst g) /\ (In v roots \/ exists u, In u S /\ In v (succs g u)).
+
+Theorem survivors_are_the_greatest_supported_set g roots v :
+  In v (survivors g roots) <-> exists S, supported g roots S /\ In v S.
+Proof.
+unfold survivors. split.
+- intros Hv. exists (reclaim (length g) g roots (map fst g)). split; [|exact Hv].
+  intros x Hx. split; [exact (reclaim_subset _ _ _ _ _ Hx)|].
+  pose proof (reclaim_reaches_fixpoint (length g) g roots (map fst g)) as Hfix.
+  rewrite map_length in Hfix. specialize (Hfix (le_n _)).
+  rewrite <- Hfix in Hx. unfold sweep in Hx. apply filter_In in Hx. destruct Hx as [Hx Hr].
+  unfold referenced in Hr. apply orb_true_iff in Hr. destruct Hr as [Hr|Hr].
+  + left. apply mem_In. exact Hr.
+  + right. apply existsb_In_succs in Hr. exact Hr.
+- intros [S [Hsup Hv]].
+  apply (rooted_survives g roots S); [| |exact Hv].
+  + intros x Hx. exact (proj2 (Hsup x Hx)).
+  + intros x Hx. exact (proj1 (Hsup x Hx)).
+Qed.
+
+(* hence: with no roots, a graph keeps something alive exactly when it contains a supported set, i.e. a cycle *)
+Corollary nothing_survives_iff_no_supported_set g :
+  survivors g [] = [] <-> forall S, supported g [] S -> S = [].
+Proof.
+split.
+- intros Hnil S Hsup. destruct S as [|x S]; [reflexivity|]. exfalso.
+  assert (Hx : In x (survivors g [])).
+  { apply survivors_are_the_greatest_supported_set. exists (x :: S). split; [exact Hsup|left; reflexivity]. }
+  rewrite Hnil in Hx. exact Hx.
+- intros Hall. destruct (survivors g []) as [|x l] eqn:E; [reflexivity|]. exfalso.
+  assert (Hx : In x (survivors g [])) by (rewrite E; left; reflexivity).
+  apply survivors_are_the_greatest_supported_set in Hx. destruct Hx as [S [Hsup Hin]].
+  rewrite (Hall S Hsup) in Hin. exact Hin.
+Qed.
